@@ -74,7 +74,11 @@ func BuildStaticWeightList(endpoints []endpoint.Endpoint) []int {
 			maxRange = maxStaticWeightLimit
 		}
 	} else {
-		maxRange, totalWeight = 1, 1
+		// zero or negative weights: do not scale; such endpoints get a single slot below
+		maxRange, maxWeight = 1, 1
+	}
+	if totalCapacity < 0 {
+		totalCapacity = 0
 	}
 
 	var weightToId []pair
